@@ -80,11 +80,52 @@ def r2_tolerates_vanished_files(repo=None):
                                 return True
                     tr = m.enclosing(tr, (ast.Try,))
         return False
+    def from_probed_list(o):
+        """the opened name is the loop variable of a loop over a list to which names are appended only on the accessible branch
+        of an os.access probe (probing pass first, reading pass afterwards)"""
+        for c in pyfront.node_calls(o):
+            if pyfront.call_name(c) not in openers or not c.args or not isinstance(c.args[0], ast.Name):
+                continue
+            v = c.args[0].id
+            lp = m.enclosing(c, (ast.For,))
+            while lp is not None and not (isinstance(lp.target, ast.Name) and lp.target.id == v):
+                lp = m.enclosing(lp, (ast.For,))
+            if lp is None:
+                return False
+            it = lp.iter
+            if isinstance(it, ast.Call) and pyfront.call_name(it) in ("reversed", "sorted", "list") and it.args:
+                it = it.args[0]
+            if not isinstance(it, ast.Name):
+                return False
+            L = it.id
+            apps = [x for x in pyfront.walk_no_nested(fn_read) if isinstance(x, ast.Call) and isinstance(x.func, ast.Attribute)
+                    and x.func.attr in ("append", "insert", "extend") and pyfront.dotted(x.func.value) == L]
+            others = [x for x in pyfront.walk_no_nested(fn_read) if isinstance(x, ast.Assign) and any(
+                isinstance(t, ast.Name) and t.id == L for t in x.targets) and not (isinstance(x.value, (ast.List, ast.Tuple)) and not x.value.elts)]
+            if not apps or others:
+                return False
+            for a in apps:
+                iff = m.enclosing(a, (ast.If,))
+                good = False
+                while iff is not None and not good:
+                    t = iff.test
+                    pos = isinstance(t, ast.Call) and pyfront.call_name(t) == "os.access" and any(a is x for st in iff.body for x in ast.walk(st))
+                    neg = isinstance(t, ast.UnaryOp) and isinstance(t.op, ast.Not) and isinstance(t.operand, ast.Call) \
+                        and pyfront.call_name(t.operand) == "os.access" and any(a is x for st in iff.orelse for x in ast.walk(st))
+                    good = pos or neg
+                    iff = m.enclosing(iff, (ast.If,))
+                if not good:
+                    return False
+            return True
+        return False
     ok = True
     how = []
     for o in opens:
         if guarded_by_handler(o):
             how.append("try/except IOError")
+            continue
+        if from_probed_list(o):
+            how.append("os.access probe (probing pass before the reading pass)")
             continue
         if not probes:
             ok = False
@@ -217,6 +258,63 @@ def r3_cache_is_keyed_by_full_name(repo=None):
     return r
 
 
+def r4_consistent_snapshot(repo=None):
+    """'at every moment it sees exactly the samples of the files finalized so far', for free-running processes: one read call
+    that spans several files must return what existed at ONE moment.  The writer finalizes files strictly in time order (C02: the
+    rename of file k precedes the creation of tmp file k+1), so the set of files present at any moment is a prefix.  A reader that
+    probes the candidate names oldest-first, and opens each present file before probing the next, can be overtaken: "k absent"
+    answered before the writer renames k and k+1, "k+1 present" after - a hole that never existed.  Probing *newest-first* and
+    completing the probing pass before anything is opened gives a prefix-closed set (if j is seen, every older i was finalized
+    before j and is probed later).  Checked on _read: (a) no file is opened inside the loop that probes (two passes); (b) the
+    probing loop runs over the candidate list in reversed order."""
+    r = Rule("C09.R4", "one read call returns the files that existed at one moment (newest-first probing pass, then reading pass)")
+    m = pyfront.mod("digital_rf_hdf5", repo)
+    q = TL + "._read"
+    view = m.flat(q)
+    fn = view.fn()
+    params = [a.arg for a in fn.args.args]
+    probes = [c for c in ast.walk(fn) if isinstance(c, ast.Call) and pyfront.call_name(c) == "os.access"]
+    if not probes:
+        # EAFP form: each open is its own probe - then the opens themselves must run newest-first or be transactional; not recognised
+        raise AnalysisError("%s: no os.access probe found (the snapshot argument is not analysed for this form)" % q)
+    parents = {}
+    for n in ast.walk(fn):
+        for ch in ast.iter_child_nodes(n):
+            parents[ch] = n
+
+    def loop_of(n):
+        p = parents.get(n)
+        while p is not None and not (isinstance(p, ast.For) and not (isinstance(p.target, ast.Name) and p.target.id.startswith("__once_"))):
+            p = parents.get(p)
+        return p
+    for c in probes:
+        lp = loop_of(c)
+        if lp is None:
+            raise AnalysisError("%s: os.access probe outside a loop over the candidate files" % q)
+        opens_in = [x for x in ast.walk(lp) if isinstance(x, ast.Call) and pyfront.call_name(x) == "h5py.File"]
+        it = lp.iter
+        rev = isinstance(it, ast.Call) and pyfront.call_name(it) == "reversed"
+        base = it.args[0] if rev and it.args else it
+        src = pyfront.dotted(base)
+        site = "%s:%s %s `for %s in %s`" % (m.rel, lp.lineno, q, norm(ast.unparse(lp.target)), norm(ast.unparse(lp.iter))[:50])
+        if opens_in:
+            r.violation(m.rel, q, "os.access probe and h5py.File in one loop over %s" % norm(ast.unparse(lp.iter))[:40],
+                        "every present file is opened and read before the next candidate name is probed, oldest first: while the "
+                        "reader works on file k-1 the writer can finalize k (probed earlier, absent) and k+1 (probed later, present), so "
+                        "one call returns file k+1 without file k - a gap in a gap-free recording that no moment ever showed "
+                        "(read_vector then reports 'Data gaps found', a tailing consumer skips file k for good)", line=lp.lineno)
+        elif src not in params:
+            raise AnalysisError("%s: the probing loop does not run over the candidate list parameter (`%s`)" % (q, norm(ast.unparse(it))[:60]))
+        elif not rev:
+            r.violation(m.rel, q, "probing pass over `%s` in ascending order" % norm(ast.unparse(it))[:40],
+                        "the probing pass runs oldest-first: the writer can finalize files k and k+1 between the probe of k (absent) and "
+                        "the probe of k+1 (present); only a newest-first pass yields a prefix of the files written", line=lp.lineno)
+        else:
+            r.ok(site, "probing pass newest-first, nothing is opened before it is complete: the files seen are a prefix of the files finalized")
+    r.guard(1)
+    return r
+
+
 def rules(repo=None):
     return [_rebrand(lambda: c02.r1_tmp_provenance(repo), "C09.P1"), _rebrand(lambda: c02.r2_publish_after_close(repo), "C09.P2"),
             _rebrand(lambda: c02.r3_no_writer_of_final(repo), "C09.P3"), _rebrand(lambda: c02.r4_staged_creation(repo), "C09.P4"),
@@ -225,7 +323,8 @@ def rules(repo=None):
             _rebrand(lambda: c02.r7_failed_create_not_published(repo), "C09.P7"),
             lambda: c20.r1_read_roles(repo, rid="C09.R1", prefixes=("digital_rf_hdf5:", "list_drf:"),
                                           stop_modules=("digital_metadata",)),
-            lambda: r2_tolerates_vanished_files(repo), lambda: r3_cache_is_keyed_by_full_name(repo)]
+            lambda: r2_tolerates_vanished_files(repo), lambda: r3_cache_is_keyed_by_full_name(repo),
+            lambda: r4_consistent_snapshot(repo)]
 
 
 EXPLANATION = (
@@ -235,7 +334,7 @@ EXPLANATION = (
     "fail to open; _read tolerates a file that is not there (os.access probe, or a caught IOError of the open) and opens "
     "read-only. R3: the per-file cache is keyed by the full path, all of it is refreshed when the path changes, and once the "
     "cached handle is closed the key is re-assigned or cleared before the iteration can be left without a successful open (no key "
-    "naming a closed file). With POSIX rename atomicity these imply that a reader sees exactly the finalized "
+    "naming a closed file). R4: one read call sees a prefix of the files finalized: the existence probes of _read form a newest-first pass that is complete before any file is opened. With POSIX rename atomicity these imply that a reader sees exactly the finalized "
     "files and that set only grows. Does NOT decide failures outside the protocol (EMFILE, permissions) or timing.")
 TECHNIQUE = ("C02's protocol rules + package call graph reachability (read roles), CFG checks of vanished-file tolerance, cache key def-use")
 ASSUMPTIONS = c02.ASSUMPTIONS + ["a finalized RF file is never modified (C02.R3), so cached index data cannot go stale"]
